@@ -13,3 +13,5 @@ import Gleece.Properties.Serve
 #print axioms Gleece.Serve.parseIntegral_unsigned_in_range
 #print axioms Gleece.Serve.bindAll_some_each
 #print axioms Gleece.Serve.parseIntegral_signed_in_range
+#print axioms Gleece.Serve.htmlEscape_id
+#print axioms Gleece.Serve.escaped_tag_changes_meaning
